@@ -194,7 +194,8 @@ pub fn run_prop(ctx: &Ctx, sink: &mut Sink) {
             .spawn()
             .and_then(|mut ch| {
                 use std::io::Write;
-                ch.stdin.take().unwrap().write_all(b"a\nb\n")?;
+                // (xargs may refuse its command line and exit before it reads anything: a broken pipe here is not an error)
+                let _ = ch.stdin.take().unwrap().write_all(b"a\nb\n");
                 ch.wait()
             })
             .expect("run xargs");
@@ -239,7 +240,7 @@ pub fn run_prop(ctx: &Ctx, sink: &mut Sink) {
             .spawn()
             .and_then(|mut ch| {
                 use std::io::Write;
-                ch.stdin.take().unwrap().write_all(b"a\nb\n")?;
+                let _ = ch.stdin.take().unwrap().write_all(b"a\nb\n");
                 ch.wait()
             })
             .expect("run xargs");
